@@ -237,4 +237,84 @@ theorem decodeHead_congr {get get' : Nat → UInt8} {len : Nat} (h : ∀ i, i < 
   by_cases h0 : len = 0
   · simp [h0]
   · rw [if_neg h0, if_neg h0, h 0 (by omega), decodeMt7_congr h, decodeMtArg_congr h]
+
+theorem tokOfArg_need_le {mt ai v hl n n' need : Nat} {t : Tok} {l : Nat}
+    (h1 : tokOfArg mt ai v hl n = .nedata need) (h2 : tokOfArg mt ai v hl n' = .ok t l) : need ≤ l := by
+  unfold tokOfArg at h1 h2
+  split at h1
+  all_goals first
+    | (simp at h1; done)
+    | (split at h1 <;> simp at h1; subst h1; simp only at h2; split at h2 <;> simp at h2; omega)
+
+theorem decodeMt7_need_le {get : Nat → UInt8} {n n' ai need : Nat} {t : Tok} {l : Nat}
+    (h1 : decodeMt7 get n ai = .nedata need) (h2 : decodeMt7 get n' ai = .ok t l) : need ≤ l := by
+  unfold decodeMt7 at h1 h2
+  repeat' split at h1
+  all_goals simp at h1
+  all_goals (subst h1; simp_all; try (split at h2 <;> simp at h2 <;> omega))
+
+theorem decodeMtArg_need_le {get : Nat → UInt8} {n n' mt ai need : Nat} {t : Tok} {l : Nat}
+    (h1 : decodeMtArg get n mt ai = .nedata need) (h2 : decodeMtArg get n' mt ai = .ok t l) : need ≤ l := by
+  unfold decodeMtArg at h1 h2
+  by_cases c1 : ai < 24
+  · simp only [c1, if_true] at h1 h2; exact tokOfArg_need_le h1 h2
+  · simp only [c1, if_false] at h1 h2
+    by_cases c2 : ai ≤ 27
+    · simp only [c2, if_true] at h1 h2
+      by_cases c3 : 1 + argBytes ai ≤ n
+      · simp only [c3, if_true] at h1
+        by_cases c4 : 1 + argBytes ai ≤ n'
+        · simp only [c4, if_true] at h2; exact tokOfArg_need_le h1 h2
+        · simp [c4] at h2
+      · simp only [c3, if_false] at h1
+        simp at h1; subst h1
+        by_cases c4 : 1 + argBytes ai ≤ n'
+        · simp only [c4, if_true] at h2; exact (tokOfArg_ok h2).1
+        · simp [c4] at h2
+    · simp only [c2, if_false] at h1 h2
+      split at h1
+      · exact absurd h1 decodeIndef_ne_nedata
+      · simp at h1
+
+/-- NEDATA never asks for more than the pending item really occupies -/
+theorem decodeHead_need_le {get : Nat → UInt8} {n n' need : Nat} {t : Tok} {l : Nat}
+    (h1 : decodeHead get n = .nedata need) (h2 : decodeHead get n' = .ok t l) : need ≤ l := by
+  have hok := decodeHead_ok h2
+  unfold decodeHead at h1 h2
+  by_cases c0 : n = 0
+  · simp [c0] at h1; omega
+  · have c0' : ¬ n' = 0 := by omega
+    simp only [c0, c0', if_false] at h1 h2
+    split at h1
+    · rename_i h7; simp only [h7, if_true] at h2; exact decodeMt7_need_le h1 h2
+    · rename_i h7; simp only [h7, if_false] at h2; exact decodeMtArg_need_le h1 h2
+
+/-- a reserved / unsupported initial byte is an error whatever follows and however much is buffered -/
+theorem decodeHead_error_stable {get : Nat → UInt8} {n n' : Nat} (h : decodeHead get n = .error) (hn : 1 ≤ n') :
+    decodeHead get n' = .error := by
+  unfold decodeHead at h ⊢
+  by_cases c0 : n = 0
+  · simp [c0] at h
+  · have c0' : ¬ n' = 0 := by omega
+    simp only [c0, c0', if_false] at h ⊢
+    split at h
+    · rename_i h7
+      simp only [h7, if_true]
+      unfold decodeMt7 at h ⊢
+      repeat' split at h
+      all_goals simp at h
+      simp_all
+    · rename_i h7
+      simp only [h7, if_false]
+      unfold decodeMtArg at h ⊢
+      repeat' split at h
+      · exact absurd h tokOfArg_ne_error
+      · exact absurd h tokOfArg_ne_error
+      · simp at h
+      · rename_i a b c
+        rw [if_neg a, if_neg b, if_pos c]; exact h
+      · rename_i a b c
+        rw [if_neg a, if_neg b, if_neg c]
+
+
 end Spec
